@@ -18,6 +18,23 @@ def unit(**kw):
 
 INT2 = "lhs is Int && rhs is Int"
 
+
+def sem_binop(r, b):
+    """`r` evaluates, in every state, as the semantic function of the binary operation `b` prescribes
+    (two quantifiers with one trigger each: result and state)"""
+    return (f"(forall|s: int| refines(#[trigger] eval_res({r}, s), binop_res({b}, s))) "
+            f"&& (forall|s: int| #[trigger] eval_st({r}, s) == binop_st({b}, s))")
+
+
+def sem_unop(r, u):
+    return (f"(forall|s: int| #[trigger] eval_res({r}, s) == unop_res({u}, s)) "
+            f"&& (forall|s: int| #[trigger] eval_st({r}, s) == unop_st({u}, s))")
+
+
+def sem_ifelse(r, x):
+    return (f"(forall|s: int| #[trigger] eval_res({r}, s) == ifelse_res({x}, s)) "
+            f"&& (forall|s: int| #[trigger] eval_st({r}, s) == ifelse_st({x}, s))")
+
 # ---------------------------------------------------------------- C08 scalar leaves ---
 unit(id="add.exec", src=MATH + "add.rs", path=[("fn", "exec")], mod="add",
      requires=[INT2],
@@ -99,7 +116,7 @@ unit(id="iws.exec", src=INS, path=[("impl", "Exec for InstructionWithStr"), ("fn
 COND = f"eval_res(self.condition.instruction, {S0})"
 COND_ST = f"eval_st(self.condition.instruction, {S0})"
 unit(id="ifelse.exec", src=CF + "if_else.rs", path=[("impl", "Exec for IfElse"), ("fn", "exec")],
-     impl="IfElse", stubs=["iws.exec"],
+     impl="IfElse", stubs=["iws.exec"], fragments=["opspecs", "semantics"],
      requires=[f"{COND} is Ok ==> {COND}->Ok_0 is Bool"],
      ensures=[
          ("ifelse.exec.condition_error_stops", ["C07", "C12"],
@@ -107,6 +124,8 @@ unit(id="ifelse.exec", src=CF + "if_else.rs", path=[("impl", "Exec for IfElse"),
          ("ifelse.exec.true_runs_first_branch_only", ["C07", "C12"],
           f"{COND} == Ok::<Variable, ExecStop>(Variable::Bool(true)) ==> "
           f"r == eval_res(self.if_true.instruction, {COND_ST}) && {S9} == eval_st(self.if_true.instruction, {COND_ST})"),
+         ("ifelse.exec.is_the_semantic_function_ifelse_res", ["C04", "C07", "C12"],
+          f"r == ifelse_res(*self, {S0}) && {S9} == ifelse_st(*self, {S0})"),
          ("ifelse.exec.false_runs_second_branch_only", ["C07", "C12"],
           f"{COND} == Ok::<Variable, ExecStop>(Variable::Bool(false)) ==> "
           f"r == eval_res(self.if_false.instruction, {COND_ST}) && {S9} == eval_st(self.if_false.instruction, {COND_ST})"),
@@ -199,8 +218,12 @@ for _v, _m in _ASSIGN_FALL:
     _ens.append((f"binop.exec.compound_{_m}", ["C08"],
                  f"self.op is {_v} && {_both} ==> (match op_{_m}(cell_content({L}->Ok_0), {R}->Ok_0) {{ "
                  f"Ok(v) => r == {OKV}(v), Err(e) => r is Err }})"))
+_ens.append(("binop.exec.is_the_semantic_function_binop_res", ["C04", "C07", "C08"],
+             f"is_plain_binop(self.op) || self.op is And || self.op is Or ==> "
+             f"refines(r, binop_res(*self, {S0})) && {S9} == binop_st(*self, {S0})"))
 unit(id="binop.exec", src=BINOP, path=[("impl", "Exec for BinOperation"), ("fn", "exec")],
-     impl="BinOperation", stubs=["and.exec", "or.exec", "assign.exec", "assign.try_exec"], fragments=["opspecs", "opstubs"],
+     impl="BinOperation", stubs=["and.exec", "or.exec", "assign.exec", "assign.try_exec"],
+     fragments=["opspecs", "opstubs", "semantics"],
      rewrites=[("|_, b| b", "|_a, b| b")],
      requires=[f"(self.op is And || self.op is Or) && {L} is Ok ==> {L}->Ok_0 is Bool",
                "(" + " || ".join(f"self.op is {v}" for v in ["Assign"] + [a for a, _m in
@@ -214,7 +237,7 @@ UNOP = "src/instruction/unary_operation.rs"
 E = f"eval_res(self.instruction, {S0})"
 E_ST = f"eval_st(self.instruction, {S0})"
 unit(id="unop.exec", src=UNOP, path=[("impl", "Exec for UnaryOperation"), ("fn", "exec")],
-     impl="UnaryOperation", fragments=["opspecs", "unstubs"],
+     impl="UnaryOperation", fragments=["opspecs", "unstubs", "semantics"],
      requires=[
          "!(self.op is All) && !(self.op is Any) && !(self.op is BitAnd) && !(self.op is BitOr)",
          f"self.op is FunctionCall && {E} is Ok ==> {E}->Ok_0 is Function",
@@ -223,6 +246,8 @@ unit(id="unop.exec", src=UNOP, path=[("impl", "Exec for UnaryOperation"), ("fn",
          ("unop.exec.operand_error_stops", ["C07"], f"{E} is Err ==> r == {E} && {S9} == {E_ST}"),
          ("unop.exec.operand_once_before_operator", ["C07"],
           f"!(self.op is FunctionCall) && !(self.op is Collect) ==> {S9} == {E_ST}"),
+         ("unop.exec.is_the_semantic_function_unop_res", ["C04", "C07", "C08"],
+          f"(self.op is Not || self.op is UnaryMinus) ==> r == unop_res(*self, {S0}) && {S9} == unop_st(*self, {S0})"),
          ("unop.exec.dispatch_not", ["C08"], f"self.op is Not && {E} is Ok ==> r == {OKV}(op_not({E}->Ok_0))"),
          ("unop.exec.dispatch_unary_minus", ["C08"],
           f"self.op is UnaryMinus && {E} is Ok ==> r == {OKV}(op_unary_minus({E}->Ok_0))"),
@@ -377,7 +402,11 @@ RS9 = "final(local_variables).st@"
 for _m, _dec in (("and", "false"), ("or", "true")):
     _nd = "true" if _dec == "false" else "false"
     unit(id=f"{_m}.create_from_instructions", src=LOGIC, path=[("mod", _m), ("fn", "create_from_instructions")], mod=_m,
+         fragments=["opspecs", "semantics"], broadcast=["sem_axioms::sem"],
+         requires=["lhs is Variable ==> lhs->Variable_0 is Bool"],
          ensures=[
+             (f"{_m}.fold.unobservable", ["C04", "C07"],
+              sem_binop("r", f"unfolded(lhs, rhs, BinOperator::{_m.capitalize()})")),
              (f"{_m}.fold.deciding_constant_drops_rhs", ["C04", "C07"],
               f"lhs == Instruction::Variable(Variable::Bool({_dec})) ==> r == Instruction::Variable(Variable::Bool({_dec}))"),
              (f"{_m}.fold.non_deciding_constant_yields_rhs_untouched", ["C04", "C07"],
@@ -386,7 +415,11 @@ for _m, _dec in (("and", "false"), ("or", "true")):
               f"!(lhs is Variable) ==> r == Instruction::BinOperation(Arc::new(BinOperation {{ lhs, rhs, op: BinOperator::{_m.capitalize()} }}))"),
          ])
     unit(id=f"{_m}.recreate", src=LOGIC, path=[("mod", _m), ("fn", "recreate")], mod=_m,
+         fragments=["opspecs", "semantics"], broadcast=["sem_axioms::sem"],
+         requires=["lhs is Variable ==> lhs->Variable_0 is Bool"],
          ensures=[
+             (f"{_m}.recreate.unobservable", ["C04", "C07"],
+              f"r is Ok ==> (" + sem_binop("r->Ok_0", f"unfolded(lhs, *rhs, BinOperator::{_m.capitalize()})") + ")"),
              (f"{_m}.recreate.deciding_constant_drops_rhs", ["C04", "C07"],
               f"lhs == Instruction::Variable(Variable::Bool({_dec})) ==> "
               f"r == Ok::<Instruction, ExecError>(Instruction::Variable(Variable::Bool({_dec}))) && {RS9} == {RS0}"),
@@ -407,8 +440,11 @@ unit(id="iws.recreate", src=INS, path=[("impl", "InstructionWithStr"), ("fn", "r
 RC = f"rec_res(self.condition.instruction, {RS0})"
 RC_ST = f"rec_st(self.condition.instruction, {RS0})"
 unit(id="ifelse.recreate", src=CF + "if_else.rs", path=[("impl", "Recreate for IfElse"), ("fn", "recreate")], impl="IfElse",
-     stubs=["iws.recreate"],
+     stubs=["iws.recreate"], fragments=["opspecs", "semantics"], broadcast=["sem_axioms::sem"],
+     requires=[f"{RC} is Ok && {RC}->Ok_0 is Variable ==> {RC}->Ok_0->Variable_0 is Bool"],
      ensures=[
+         ("ifelse.recreate.unobservable", ["C04", "C12"],
+          "r is Ok ==> (" + sem_ifelse("r->Ok_0", "*self") + ")"),
          ("ifelse.recreate.condition_error_stops", ["C04"], f"{RC} is Err ==> r == Err::<Instruction, ExecError>({RC}->Err_0)"),
          ("ifelse.recreate.constant_true_keeps_first_branch_only", ["C04", "C12"],
           f"{RC} == Ok::<Instruction, ExecError>(Instruction::Variable(Variable::Bool(true))) ==> "
@@ -434,32 +470,34 @@ _rens = [
     ("binop.recreate.lhs_error_stops", ["C04"], f"{RL} is Err ==> r == Err::<Instruction, ExecError>({RL}->Err_0)"),
     ("binop.recreate.rhs_error_stops", ["C04"],
      f"{_strict} && {RL} is Ok && {RR} is Err ==> r == Err::<Instruction, ExecError>({RR}->Err_0)"),
+    ("binop.recreate.unobservable", ["C04", "C07", "C08"],
+     "r is Ok ==> (" + sem_binop("r->Ok_0", "*self") + ")"),
 ]
 _rboth = f"{RL} is Ok && {RR} is Ok"
-for _v, _m in _PURE:
-    _rens.append((f"binop.recreate.dispatch_{_m}", ["C04"] + (["C08"] if _v in _C08OPS else []),
-                  f"self.op is {_v} && {_rboth} ==> r == {OKI}({_m}::folded({RL}->Ok_0, {RR}->Ok_0))"))
-for _v, _m in (("Divide", "divide"), ("Modulo", "modulo"), ("LShift", "lshift"), ("RShift", "rshift"), ("At", "at")):
-    _rens.append((f"binop.recreate.dispatch_{_m}", ["C04"] + (["C08"] if _v in _C08OPS else ["C09"]),
-                  f"self.op is {_v} && {_rboth} ==> r == {_m}::folded({RL}->Ok_0, {RR}->Ok_0)"))
 _notfolded = ["Pow", "Filter", "Map", "FunctionCall", "Partition", "Assign", "AssignAdd", "AssignSubtract",
               "AssignMultiply", "AssignDivide", "AssignModulo", "AssignLShift", "AssignRShift", "AssignBitwiseAnd",
               "AssignBitwiseOr", "AssignXor", "AssignPow"]
 _rens.append(("binop.recreate.other_operators_rebuilt_in_place", ["C04"],
               "(" + " || ".join(f"self.op is {v}" for v in _notfolded) + f") && {_rboth} ==> "
               f"r == {OKI}(Instruction::BinOperation(Arc::new(BinOperation {{ lhs: {RL}->Ok_0, rhs: {RR}->Ok_0, op: self.op }})))"))
+_FOLD_UNITS = [f"{m}.create_from_instructions" for m in ("add", "subtract", "multiply", "divide", "modulo", "equal", "not_equal",
+               "greater", "greater_equal", "lower", "lower_equal", "and", "or", "bitwise_and", "bitwise_or", "xor",
+               "lshift", "rshift", "at")]
 unit(id="binop.recreate", src=BINOP, path=[("impl", "Recreate for BinOperation"), ("fn", "recreate")], impl="BinOperation",
-     stubs=["and.recreate", "or.recreate", "and.create_from_instructions", "or.create_from_instructions"],
-     fragments=["opspecs", "opstubs"], ensures=_rens)
+     stubs=["and.recreate", "or.recreate"] + _FOLD_UNITS,
+     fragments=["opspecs", "semantics"], broadcast=["sem_axioms::sem"],
+     requires=[f"(self.op is And || self.op is Or) && {RL} is Ok && {RL}->Ok_0 is Variable ==> {RL}->Ok_0->Variable_0 is Bool",
+               f"self.op is At && {RL} is Ok && {RL}->Ok_0 is Array ==> {RL}->Ok_0->Array_0.instructions@.len() <= isize::MAX as usize"],
+     ensures=_rens)
 RE = f"rec_res(self.instruction, {RS0})"
 unit(id="unop.recreate", src=UNOP, path=[("impl", "Recreate for UnaryOperation"), ("fn", "recreate")], impl="UnaryOperation",
-     fragments=["opspecs", "unstubs"],
+     stubs=["not.create_from_instruction", "unary_minus.create_from_instruction"],
+     fragments=["opspecs", "semantics"], broadcast=["sem_axioms::sem"],
      sig_rewrites=[("super::Instruction", "Instruction"), ("crate::ExecError", "ExecError")],
      ensures=[
          ("unop.recreate.operand_error_stops", ["C04"], f"{RE} is Err ==> r == Err::<Instruction, ExecError>({RE}->Err_0)"),
-         ("unop.recreate.dispatch_not", ["C04", "C08"], f"self.op is Not && {RE} is Ok ==> r == {OKI}(not::folded({RE}->Ok_0))"),
-         ("unop.recreate.dispatch_unary_minus", ["C04", "C08"],
-          f"self.op is UnaryMinus && {RE} is Ok ==> r == {OKI}(unary_minus::folded({RE}->Ok_0))"),
+         ("unop.recreate.unobservable", ["C04", "C08"],
+          "(self.op is Not || self.op is UnaryMinus) && r is Ok ==> (" + sem_unop("r->Ok_0", "*self") + ")"),
          ("unop.recreate.other_operators_rebuilt_in_place", ["C04"],
           f"!(self.op is Not) && !(self.op is UnaryMinus) && {RE} is Ok ==> "
           f"r == {OKI}(Instruction::UnaryOperation(Arc::new(UnaryOperation {{ instruction: {RE}->Ok_0, op: self.op }})))"),
@@ -490,16 +528,23 @@ _OPNAME = dict(_PURE + _FALL)
 _OPNAME = {m: v for v, m in _OPNAME.items()}
 for _m, (_src, _path, _dup) in _SRC_OF.items():
     _a, _b = ("dividend", "divisor") if _m in ("divide", "modulo") else ("lhs", "rhs")
+    _total = []
+    if _m in ("divide", "modulo"):
+        # a total fact (holds for EVERY dividend), proved by the unit <m>.exec.total below
+        _total = [(f"{_m}.exec.pure.zero", [], f"{_b} == Variable::Int(0) ==> r is Err")]
     unit(id=f"{_m}.exec.pure", src=_src, path=_path, mod=_m, duplicate=_dup, stub_only=True,
-         ensures=[(f"{_m}.exec.pure", [], f"r == op_{_m}({_a}, {_b})")])
+         ensures=[(f"{_m}.exec.pure", [], f"r == op_{_m}({_a}, {_b})")] + _total)
 for _m in ("add", "subtract", "multiply", "equal", "not_equal", "greater", "greater_equal", "lower", "lower_equal",
            "bitwise_and", "bitwise_or", "xor"):
     _src, _path, _dup = _SRC_OF[_m]
     _cpath = _path[:-1] + [("fn", "create_from_instructions")]
     _ps = ["C04"] + (["C08"] if _OPNAME[_m] in _C08OPS else ["C19"])
     unit(id=f"{_m}.create_from_instructions", src=_src, path=_cpath, mod=_m, duplicate=_dup,
-         stubs=[f"{_m}.exec.pure", "with_exec"], fragments=["opspecs"],
+         stubs=[f"{_m}.exec.pure", "with_exec"], fragments=["opspecs", "semantics"],
+         broadcast=["sem_axioms::sem"],
          ensures=[
+             (f"{_m}.fold.unobservable", _ps,
+              sem_binop("r", f"unfolded(lhs, rhs, BinOperator::{_OPNAME[_m]})")),
              (f"{_m}.fold.constants_equal_exec", _ps,
               f"lhs is Variable && rhs is Variable ==> r == Instruction::Variable(op_{_m}(lhs->Variable_0, rhs->Variable_0))"),
              (f"{_m}.fold.non_constant_rebuilt_same_operator", _ps,
@@ -508,15 +553,24 @@ for _m in ("add", "subtract", "multiply", "equal", "not_equal", "greater", "grea
          ])
 for _m, _err in (("divide", "ZeroDivision"), ("modulo", "ZeroModulo")):
     _src, _path, _dup = _SRC_OF[_m]
+    # no `requires`: the fact holds for every dividend; the panic arm of the body is then reachable, which is why
+    # this unit carries no `.safe` obligation (panic freedom is proved by <m>.exec under the tag precondition)
+    unit(id=f"{_m}.exec.total", src=_src, path=_path, mod=_m, no_safe=True,
+         ensures=[(f"{_m}.exec.zero_divisor_errs_for_every_dividend", ["C04", "C08"],
+                   f"divisor == Variable::Int(0) ==> r == Err::<Variable, ExecError>(ExecError::{_err})")])
     unit(id=f"{_m}.create_from_instructions", src=_src, path=[("fn", "create_from_instructions")], mod=_m,
-         stubs=[f"{_m}.exec.pure"], fragments=["opspecs"],
+         stubs=[f"{_m}.exec.pure"], fragments=["opspecs", "semantics"], broadcast=["sem_axioms::sem"],
          ensures=[
+             (f"{_m}.fold.unobservable", ["C04", "C08"],
+              f"r is Ok ==> (" + sem_binop("r->Ok_0", f"unfolded(dividend, divisor, BinOperator::{_OPNAME[_m]})") + ")"),
+             (f"{_m}.fold.early_error_only_if_every_evaluation_fails", ["C04", "C08"],
+              f"r is Err ==> (forall|s: int| #[trigger] binop_res(unfolded(dividend, divisor, BinOperator::{_OPNAME[_m]}), s) is Err)"),
              (f"{_m}.fold.constants_equal_exec", ["C04", "C08"],
               f"dividend is Variable && divisor is Variable ==> (match op_{_m}(dividend->Variable_0, divisor->Variable_0) {{ "
               f"Ok(v) => r == {OKI}(Instruction::Variable(v)), Err(e) => r == Err::<Instruction, ExecError>(e) }})"),
              (f"{_m}.fold.early_error_only_for_constant_zero_divisor", ["C04", "C08"],
               f"!(dividend is Variable && divisor is Variable) ==> "
-              f"(r is Err <==> divisor == Instruction::Variable(Variable::Int(0))) && (r is Err ==> r->Err_0 is {_err})"),
+              f"(r is Err ==> divisor == Instruction::Variable(Variable::Int(0))) && (r is Err ==> r->Err_0 is {_err})"),
              (f"{_m}.fold.non_constant_rebuilt_same_operator", ["C04", "C08"],
               f"!(dividend is Variable && divisor is Variable) && divisor != Instruction::Variable(Variable::Int(0)) ==> "
               f"r == {OKI}(Instruction::BinOperation(Arc::new(BinOperation {{ lhs: dividend, rhs: divisor, op: BinOperator::{_OPNAME[_m]} }})))"),
@@ -525,14 +579,19 @@ for _m, _err in (("divide", "ZeroDivision"), ("modulo", "ZeroModulo")):
 for _m in ("lshift", "rshift"):
     _src, _path, _dup = _SRC_OF[_m]
     unit(id=f"{_m}.create_from_instructions", src=_src, path=[("mod", "shift"), ("fn", "create_from_instructions")],
-         mod=_m, duplicate=_dup, stubs=[f"{_m}.exec.pure"], fragments=["opspecs"],
+         mod=_m, duplicate=_dup, stubs=[f"{_m}.exec.pure"], fragments=["opspecs", "semantics"], broadcast=["sem_axioms::sem"],
          ensures=[
+             (f"{_m}.fold.unobservable", ["C04", "C08"],
+              f"r is Ok ==> (" + sem_binop("r->Ok_0", f"unfolded(lhs, rhs, BinOperator::{_OPNAME[_m]})") + ")"),
+             (f"{_m}.fold.early_error_only_if_every_well_typed_evaluation_fails", ["C04", "C08"],
+              f"r is Err ==> (forall|s: int| (eval_res(lhs, s) is Ok ==> eval_res(lhs, s)->Ok_0 is Int) ==> "
+              f"#[trigger] binop_res(unfolded(lhs, rhs, BinOperator::{_OPNAME[_m]}), s) is Err)"),
              (f"{_m}.fold.constants_equal_exec", ["C04", "C08"],
               f"lhs is Variable && rhs is Variable ==> (match op_{_m}(lhs->Variable_0, rhs->Variable_0) {{ "
               f"Ok(v) => r == {OKI}(Instruction::Variable(v)), Err(e) => r == Err::<Instruction, ExecError>(e) }})"),
              (f"{_m}.fold.early_error_only_for_constant_out_of_range_shift", ["C04", "C08"],
               f"!(lhs is Variable && rhs is Variable) ==> "
-              f"(r is Err <==> (rhs is Variable && rhs->Variable_0 is Int && !(0 <= rhs->Variable_0->Int_0 <= 63))) "
+              f"(r is Err ==> (rhs is Variable && rhs->Variable_0 is Int && !(0 <= rhs->Variable_0->Int_0 <= 63))) "
               f"&& (r is Err ==> r->Err_0 is OverflowShift)"),
              (f"{_m}.fold.non_constant_rebuilt_same_operator", ["C04", "C08"],
               f"!(lhs is Variable && rhs is Variable) && r is Ok ==> "
@@ -564,7 +623,7 @@ unit(id="arrayrepeat.create_from_instructions", src="src/instruction/array_repea
      path=[("impl", "ArrayRepeat"), ("fn", "create_from_instructions")], impl="ArrayRepeat", rewrites=[_VAR_REPEAT],
      ensures=[
          ("arrayrepeat.fold.early_error_only_for_constant_negative_length", ["C04"],
-          f"r is Err <==> ({_LENC} && len.instruction->Variable_0->Int_0 < 0)"),
+          f"r is Err ==> ({_LENC} && len.instruction->Variable_0->Int_0 < 0)"),
          ("arrayrepeat.fold.error_kind", ["C04"], "r is Err ==> r->Err_0 is NegativeLength"),
          ("arrayrepeat.fold.constants_equal_exec", ["C04"],
           f"value.instruction is Variable && {_LENC} && len.instruction->Variable_0->Int_0 >= 0 ==> "
@@ -610,14 +669,17 @@ unit(id="at.range", src="src/instruction/at.rs", path=[("fn", "range")], mod="at
 unit(id="at.exec.pure", src="src/instruction/at.rs", path=[("fn", "exec")], mod="at", stub_only=True,
      ensures=[("at.exec.pure", [], "r == op_at(variable, index)")])
 unit(id="at.create_from_instructions", src="src/instruction/at.rs", path=[("fn", "create_from_instructions")], mod="at",
-     stubs=["at.exec.pure", "at.range"], fragments=["opspecs"], extra="use std::ops::Range;\n",
+     stubs=["at.exec.pure", "at.range"], fragments=["opspecs", "semantics"], broadcast=["sem_axioms::sem"],
+     extra="use std::ops::Range;\n",
      requires=["instruction is Array ==> instruction->Array_0.instructions@.len() <= isize::MAX as usize"],
      ensures=[
+         ("at.fold.unobservable", ["C09", "C04"],
+          "r is Ok ==> (" + sem_binop("r->Ok_0", "unfolded(instruction, index, BinOperator::At)") + ")"),
          ("at.fold.constants_equal_exec", ["C09", "C04"],
           f"instruction is Variable && index is Variable ==> (match op_at(instruction->Variable_0, index->Variable_0) {{ "
           f"Ok(v) => r == {OKI}(Instruction::Variable(v)), Err(e) => r == Err::<Instruction, ExecError>(e) }})"),
          ("at.fold.early_error_only_for_constant_index_outside_array_literal", ["C09", "C04"],
-          "!(instruction is Variable && index is Variable) ==> (r is Err <==> (instruction is Array && index is Variable "
+          "!(instruction is Variable && index is Variable) ==> (r is Err ==> (instruction is Array && index is Variable "
           "&& index->Variable_0 is Int && !(-(instruction->Array_0.instructions@.len() as int) <= index->Variable_0->Int_0 "
           "< instruction->Array_0.instructions@.len() as int))) && (r is Err ==> r->Err_0 is IndexOutOfBounds)"),
          ("at.fold.non_constant_rebuilt_in_place", ["C09", "C04", "C07"],
@@ -696,8 +758,10 @@ for _m, _op in (("not", "Not"), ("unary_minus", "UnaryMinus")):
     unit(id=f"{_m}.exec.pure", src=PREFIX, path=[("mod", _m), ("fn", "exec")], mod=_m, stub_only=True, rewrites=_rw,
          ensures=[(f"{_m}.exec.pure", [], f"r == op_{_m}(variable)")])
     unit(id=f"{_m}.create_from_instruction", src=PREFIX, path=[("mod", _m), ("fn", "create_from_instruction")], mod=_m,
-         stubs=[f"{_m}.exec.pure"], fragments=["opspecs"],
+         stubs=[f"{_m}.exec.pure"], fragments=["opspecs", "semantics"], broadcast=["sem_axioms::sem"],
          ensures=[
+             (f"{_m}.fold1.unobservable", ["C04", "C08"],
+              sem_unop("r", f"UnaryOperation {{ instruction, op: UnaryOperator::{_op} }}")),
              (f"{_m}.fold1.constant_equals_exec", ["C04", "C08"],
               f"instruction is Variable ==> r == Instruction::Variable(op_{_m}(instruction->Variable_0))"),
              (f"{_m}.fold1.non_constant_rebuilt_same_operator", ["C04", "C08"],
